@@ -492,6 +492,13 @@ def judge_step(ctx, V, k, inp, win, b, group_of, killed, waited):
     ctx.count('daemon:step:%s:%s' % (kind, FAULT_NAME.get(int(oc[1]), oc[1]) if oc[0] == 'fault' else (oc[0] if end['exitstatus'] == 0 else 'exitstatus-%s' % end['exitstatus'])))
     if oc[0] == 'exc' or (oc[0] == 'fault' and int(oc[1]) not in (l2.FAULT['STILL_RUNNING'], l2.FAULT['CANT_REREAD'])):
         V('client-step-aborted:daemon', 'supervisorctl %s ended with %s after printing %r' % (' '.join(str(x) for x in step), end['outcome'], end['output']), inp)
+    if kind == 'update' and oc[0] == 'fault' and int(oc[1]) == l2.FAULT['STILL_RUNNING']:
+        # `update` stopped a removed/changed group, a member that was EXITED with a restart pending (not "running", so
+        # stopProcessGroup skipped it) was forked again before removeProcessGroup arrived, the removal answered
+        # STILL_RUNNING and do_update re-raised it: the groups of the file are not the active ones (open finding F52)
+        V('update-aborted-still-running:restart-pending-member',
+          'supervisorctl %s ended with STILL_RUNNING after printing %r: the active groups are not those of the file' % (
+              ' '.join(str(x) for x in step), end['output']), inp)
     if kind not in ('update', 'reread'):
         return
     files = inp['files']
